@@ -171,6 +171,13 @@ def check_property(pid, tier, seed, jobs=None):
             labels = dict(r["obligations"])
             for missing in r["missing_obligations"]:
                 labels.setdefault(missing, {"status": "unknown", "paths": 0, "backends": {}, "failing": {"reason": "clause never reached (no normal-exit path explored)"}})
+            # vanished-obligation guard: an obligation the ledger records as discharged for this function that this run did NOT generate (the path that
+            # carried it is not explored any more - e.g. a successful outcome turned into an exception) is never silently dropped: it is undecided
+            prefix = f"{pid}/{fname}/"
+            for oid0, led0 in ({} if os.environ.get("VERIF_REWRITING_LEDGER") or tier != "quick" else ledger).items():
+                if oid0.startswith(prefix) and (led0.get("status") if isinstance(led0, dict) else led0) == "discharged" and oid0[len(prefix):] not in labels:
+                    labels[oid0[len(prefix):]] = {"status": "unknown", "paths": 0, "backends": {}, "failing": {
+                        "reason": "recorded as discharged on the baseline tree but not generated by this run (the path that carried it is not explored any more)"}}
             for label, a in labels.items():
                 oid = f"{pid}/{fname}/{label}"
                 st = a["status"]
@@ -398,6 +405,7 @@ def do_baseline(pids):
 
 
 def do_ledger_part(pid, out):
+    os.environ["VERIF_REWRITING_LEDGER"] = "1"  # the ledger is being rewritten: ids it still holds from an earlier contract text are not "vanished"
     code, run = check_property(pid, "quick", 0)
     with open(out, "w") as fh:
         json.dump({oid: {"status": o["status"], "sha": o.get("sha")} for oid, o in run.obligations.items()}, fh)
